@@ -2,7 +2,7 @@
     This file holds only the exported statements (each closed by [exact]). *)
 From Coq Require Import List Bool Arith ZArith.
 Import ListNotations.
-Require Import Nib.C20.SMapDef Nib.C20.Model Nib.C20.Eqdec Nib.C20.Spec Nib.C20.Shape Nib.C20.WfB Nib.C20.Check Nib.C20.Proofs.
+Require Import Nib.C20.SMapDef Nib.C20.Model Nib.C20.Eqdec Nib.C20.Spec Nib.C20.Shape Nib.C20.WfB Nib.C20.Check Nib.C20.Proofs Nib.C20.ProofsDg.
 
 (** COMPOSED THEOREM over the product of the seven modules, for ANY tree facts [c], any height/time:
     a well-formed application state exports; the export initialises a fresh chain; the second export is
@@ -100,6 +100,60 @@ Print Assumptions C20_tokenfactory_roundtrip.
 Theorem C20_devgas_roundtrip : forall F s, wf_devgas F s -> init_devgas F (export_devgas s) = Some s.
 Proof. exact devgas_roundtrip. Qed.
 Print Assumptions C20_devgas_roundtrip.
+
+(** x/devgas, REACHABLE states: the registry is only written by the four message handlers; after ANY history of them
+    (any strings, any senders, any table of wasm contracts with any admins) from a well-formed registry, the registry
+    is well-formed — in particular genesis validation (FeeShare.Validate / Params.Validate, part of [init_devgas])
+    accepts the export — and InitGenesis restores it exactly.  [funs_dg_ok]: re-encoding a parsed address parses;
+    Sanitize is the identity on valid params (checked on the tables of every case). *)
+Theorem C20_devgas_history_roundtrip : forall F ops W0 s0, funs_dg_ok F -> wf_devgas F s0 ->
+  let s := snd (dg_run DgUpdKeep F ops (W0, s0)) in
+  wf_devgas F s /\ init_devgas F (export_devgas s) = Some s.
+Proof. exact devgas_history_roundtrip. Qed.
+Print Assumptions C20_devgas_history_roundtrip.
+
+Theorem C20_devgas_history_from_genesis : forall F ops p, funs_dg_ok F -> f_dgp_ok F p = true ->
+  let s := snd (dg_run DgUpdKeep F ops ([], dg_genesis p)) in
+  init_devgas F (export_devgas s) = Some s.
+Proof. exact devgas_history_from_genesis. Qed.
+Print Assumptions C20_devgas_history_from_genesis.
+
+(** each handler step keeps the invariant (the induction step, stated on its own) *)
+Theorem C20_devgas_handlers_keep_wf : forall F ws op, funs_dg_ok F -> wf_devgas F (snd ws) ->
+  wf_devgas F (snd (fst (dg_step DgUpdKeep F ws op))).
+Proof. exact dg_step_wf. Qed.
+Print Assumptions C20_devgas_handlers_keep_wf.
+
+(** composed with the other modules: any registry history on a well-formed application state, then the strict
+    round trip, for a tree whose facts are the repaired ones (incl. the rule of MsgUpdateFeeShare) *)
+Theorem C20_app_roundtrip_after_devgas_history : forall c F env h t s ops W0,
+  cfg_ok c = true -> funs_dg_ok F -> wf_app F env s ->
+  let s1 := with_devgas s (snd (dg_run (c_dg_upd c) F ops (W0, a_devgas s))) in
+  exists g s', export_app env s1 = Some g /\ init_app c F env (tf_bankmd (a_tf s1)) h t g = Some s' /\
+               state_equiv false false env h t s1 s'.
+Proof. exact app_roundtrip_after_devgas_history. Qed.
+Print Assumptions C20_app_roundtrip_after_devgas_history.
+
+(** the variant "MsgUpdateFeeShare removes a withdrawer that equals the deployer" (stores ""): a history of three
+    successful messages reaches a registry whose export genesis validation rejects — a fresh chain cannot import it *)
+Theorem C20_devgas_update_removes_withdrawer_refuted :
+  let r := DgUpdRemoveIfDeployer in
+  let ws := dg_run r dg_funs dg_back_to_deployer ([], dg_genesis 9) in
+  dg_replay r dg_funs (map (fun op => (op, true)) dg_back_to_deployer) ([], dg_genesis 9) = Some ws /\
+  dg_shares (snd ws) = [(5, {| fs_contract := 5; fs_deployer := 6; fs_withdrawer := f_empty dg_funs |})] /\
+  init_devgas dg_funs (export_devgas (snd ws)) = None /\
+  wf_devgasb dg_funs (snd ws) = false.
+Proof. exact dg_update_removes_withdrawer_refuted. Qed.
+Print Assumptions C20_devgas_update_removes_withdrawer_refuted.
+
+Example C20_devgas_history_nonvacuous :
+  funs_dg_ok dg_funs /\ f_dgp_ok dg_funs 9 = true /\
+  dg_shares (snd (dg_run DgUpdKeep dg_funs
+     [DWasm 5 {| wi_admin := None; wi_creator := 6 |}; DWasm 8 {| wi_admin := Some 1; wi_creator := 6 |};
+      DRegister 5 6 7; DRegister 8 7 8; DUpdate 5 6 6; DCancel 5 6; DRegister 5 6 0; DRegister 5 6 6; DParams true 4]
+     ([], dg_genesis 9)))
+  = [(5, {| fs_contract := 5; fs_deployer := 6; fs_withdrawer := 6 |}); (8, {| fs_contract := 8; fs_deployer := 8; fs_withdrawer := 8 |})].
+Proof. exact dg_history_nonvacuous. Qed.
 
 Theorem C20_evm_roundtrip : forall F env s, wf_evm F s -> env_sorted env ->
   exists s', init_evm F env (export_evm env s) = Some s' /\
